@@ -24,6 +24,8 @@ PLANES = {
     1: ('px', -3.0), 2: ('px', 0.25), 3: ('px', 2.0), 4: ('py', 1.0),
     5: ('p', 1.0, 1.0, 0.0, 0.5),
     11: ('px', 0.25), 12: ('py', 1.0), 13: ('p', 1.0, 0.0, 0.0, 0.25),   # the same surfaces under other numbers
+    # the loci x = 1 and x = -1 (which the converter also uses for its own helper planes), x = 1 twice
+    14: ('px', 1.0), 15: ('px', -1.0), 16: ('px', 1.0),
 }
 RPP = (-2.0, 1.5, -1.0, 3.0, -4.0, 4.0)     # surface 6
 CURVED = {7: ('so', [4.0]), 8: ('kz', [-1.0, 0.5, 1]), 9: ('cz', [2.5]), 10: ('k/x', [1.0, 0.5, -0.5, 2.0, -1])}
@@ -33,6 +35,7 @@ SURF_CARDS = {
     1: '1 px -3', 2: '2 px 0.25', 3: '3 px 2', 4: '4 py 1', 5: '5 p 1 1 0 0.5',
     6: '6 rpp -2 1.5 -1 3 -4 4',
     11: '11 px 0.25', 12: '12 py 1', 13: '13 p 1 0 0 0.25',
+    14: '14 px 1', 15: '15 px -1', 16: '16 px 1',
     7: '7 so 4', 8: '8 kz -1 0.5 1', 9: '9 cz 2.5', 10: '10 k/x 1 0.5 -0.5 2 -1',
 }
 
@@ -95,6 +98,7 @@ def make_sense(P, flip=None):
 LITS4 = [1, -1, 2, -2, 3, -3, 4, -4]
 LITS3 = [1, -1, 2, -2, 4, -4]
 LITSD = [2, -2, 11, -11, 4, -12, 1, -13]
+LITSH = [14, -14, 15, -15, 16, -16, 4, -4]
 LITSC = [7, -7, 8, -8, 9, -9, 10, -10, 2, -2, 4, -4]
 LITSX = [5, -5, 6, -6, ('f', 6, 1), ('f', -6, 1), ('f', 6, 4), ('f', -6, 4), 2, -2, 4, -4]
 IMPS2 = [(1, 1), (1, 0), (0, 1)]
@@ -286,6 +290,8 @@ def scenarios(tier):
                 'sphere, cylinder, one-sheet cones (surface collections) and planes, k<=2; witnesses + lattice'),
             Scn('p2-dup-k3', b_p2(LITSD, [1, 2, 3], renumber=True), None, None,
                 'one surface under several numbers (slivers that become patently empty after de-duplication)'),
+            Scn('p2-helper-k3', b_p2(LITSH, [1, 2, 3]), None, None,
+                'planes x = 1 (under two numbers) and x = -1: the loci of the converter\'s own helper planes for unions'),
             Scn('nested-compl', b_nestedcompl, 3, 4, '#n and #( ... #n ... ) of the same cells'),
             Scn('forward-ref', b_forward, 3, 4, '#n of cells defined later; numbers not in card order'),
             Scn('dup-union', b_dupunion, None, None, 'unions with members that are empty only after de-duplication'),
